@@ -48,7 +48,7 @@ import os
 import re
 
 UNROLL = 3
-HELPER_DEPTH = 3
+HELPER_DEPTH = 4
 SUPER_DEPTH = 6
 
 
@@ -98,8 +98,8 @@ class Table:
 
     def load(self, relpath):
         path = os.path.join(self.repo, relpath)
-        with open(path, "rb") as f:
-            src = f.read()
+        import alpha   # the text as the harness sees it (private names renamed back when the tree renamed them consistently)
+        src = alpha.source_text(path)
         import warnings
         with warnings.catch_warnings():
             warnings.simplefilter("ignore")
@@ -256,6 +256,19 @@ class Ctx:
                 return c, fn
         return None, None
 
+    def method_body(self, c, fn, depth, sdepth):
+        """body of an open()/close()/helper definition.  QMI_Instrument.open/close themselves are translated like any
+        other body when their shape is recognised; when it is not (a rewrite of the base class), they are taken as
+        the primitives [CheckClosed; SetOpen] / [CheckOpen; SetClosed], whose behaviour on the real base class the
+        harness checks exhaustively on every run (c19.base_behaviour)."""
+        if c is self.base and fn.name in ("open", "close"):
+            try:
+                return self.block(fn.body, c, depth, sdepth, True)
+            except TranslationError as e:
+                self.notes.append("QMI_Instrument.%s taken as a behaviourally checked primitive (%s)" % (fn.name, e))
+                return ["CheckClosed", "SetOpen"] if fn.name == "open" else ["CheckOpen", "SetClosed"]
+        return self.block(fn.body, c, depth, sdepth, True)
+
     # -- which calls does the model interpret? --------------------------------------------------
     def link_call(self, call):
         """('open'|'close'|'io', attr) if call is self.L.<m>(...)"""
@@ -382,16 +395,60 @@ class Ctx:
 
     # -- statements -------------------------------------------------------------------------------
     def block(self, stmts, defcls, depth, sdepth, tail):
-        """translate a statement list; `tail`: a `return` as last statement is allowed"""
+        """translate a statement list; `tail`: the list is the tail of a function body, so a `return` ends the
+        translation of everything that follows (early returns are translated by giving each branch its own
+        continuation)"""
         out = []
         stmts = list(stmts)
         if stmts and isinstance(stmts[0], ast.Expr) and isinstance(stmts[0].value, ast.Constant) \
                 and isinstance(stmts[0].value.value, str):
             stmts = stmts[1:]
         for i, s in enumerate(stmts):
-            last = tail and i == len(stmts) - 1
-            out.extend(self.stmt(s, defcls, depth, sdepth, last))
+            rest = stmts[i + 1:]
+            if tail and rest:
+                r = self.early_exit(s, rest, defcls, depth, sdepth)
+                if r is not None:
+                    return out + r
+            out.extend(self.stmt(s, defcls, depth, sdepth, tail and not rest))
         return out
+
+    @staticmethod
+    def _returns(stmts):
+        """does some path through this statement list end the function with `return`?  (syntactic: a Return that is
+        not inside a nested function)"""
+        def walk(n):
+            if isinstance(n, ast.Return):
+                return True
+            if isinstance(n, (ast.FunctionDef, ast.AsyncFunctionDef, ast.Lambda, ast.ClassDef)):
+                return False
+            return any(walk(c) for c in ast.iter_child_nodes(n))
+        return any(walk(x) for x in stmts)
+
+    def early_exit(self, s, rest, defcls, depth, sdepth):
+        """`s` is followed by `rest` in the tail of a function.  If `s` can leave the function early, translate
+        `s; rest` as a whole; else None."""
+        if isinstance(s, ast.If) and (self._returns(s.body) or self._returns(s.orelse)):
+            st = self.static_test(s.test)
+            if st is True:
+                return self.block(list(s.body) + rest, defcls, depth, sdepth, True)
+            if st is False:
+                return self.block(list(s.orelse) + rest, defcls, depth, sdepth, True)
+            if self.interpreted(s.test, defcls):
+                bail(s, "`if` test reads the flag or calls an interpreted method: %s" % ast.unparse(s.test)[:80],
+                     defcls.name)
+            pre = [] if is_pure(s.test) else ["Io %d" % s.lineno]
+
+            def branch(b):
+                b = list(b)
+                if b and isinstance(b[-1], ast.Return):      # this branch ends the function here
+                    return self.block(b, defcls, depth, sdepth, True)
+                return self.block(b + rest, defcls, depth, sdepth, True)
+            return pre + ["Choice (%s) (%s)" % (seq(branch(s.body)), seq(branch(s.orelse)))]
+        if isinstance(s, (ast.For, ast.While)) and not self.interpreted(s, defcls) and self._returns([s]):
+            # a loop without interpreted calls that may return from inside: it ends the function, or it does not
+            return ["Io %d" % s.lineno,
+                    "Choice (Skip) (%s)" % seq(self.block(rest, defcls, depth, sdepth, True))]
+        return None
 
     def io_or_skip(self, s, exprs, defcls):
         """statement without interpreted calls: Skip if all its expressions are pure, else Io"""
@@ -433,7 +490,7 @@ class Ctx:
             if sm in ("open", "close") or self.relevant(c, fn):
                 if sdepth >= SUPER_DEPTH:
                     bail(s, "super() chain deeper than %d" % SUPER_DEPTH, defcls.name)
-                return self.block(fn.body, c, depth, sdepth + 1, True)
+                return self.method_body(c, fn, depth, sdepth + 1)
             return ["Io %d" % s.lineno]
         m = self.self_method_call(call)
         if m is not None:
@@ -491,7 +548,7 @@ class Ctx:
         self.notes.append("retry loop at %s:%d unrolled %d times" % (defcls.relpath, s.lineno, UNROLL))
         return [u]
 
-    def handlers(self, t, defcls, depth, sdepth, loop=False):
+    def handlers(self, t, defcls, depth, sdepth, loop=False):   # (loop: kept for the call in retry_loop)
         alts = []
         catch_all = False
         for h in t.handlers:
@@ -504,32 +561,11 @@ class Ctx:
                         catch_all = True
                     elif not isinstance(nm, (ast.Name, ast.Attribute)):
                         bail(h, "unrecognised except clause", defcls.name)
-            body = list(h.body)
-            rr = False
-            if body and isinstance(body[-1], ast.Raise) and body[-1].exc is None:
-                rr = True
-                body = body[:-1]
-            for x in body:
-                for n in ast.walk(x):
-                    if isinstance(n, ast.Raise) and n.exc is None:
-                        if not loop:
-                            bail(n, "bare `raise` not at the end of an except clause", defcls.name)
-            if loop:
-                # conditional re-raise inside the handler of the retry loop: `if ...: raise` -> Choice Raise Skip
-                p = []
-                for x in body:
-                    if isinstance(x, ast.If) and any(isinstance(n, ast.Raise) for n in ast.walk(x)):
-                        a = [("Raise" if isinstance(y, ast.Raise) else None) or seq(self.block([y], defcls, depth, sdepth, False))
-                             for y in x.body]
-                        b = self.block(x.orelse, defcls, depth, sdepth, False)
-                        pre = [] if is_pure(x.test) else ["Io %d" % x.lineno]
-                        p.extend(pre + ["Choice (%s) (%s)" % (seq(a), seq(b))])
-                    else:
-                        p.extend(self.block([x], defcls, depth, sdepth, False))
-            else:
-                p = self.block(body, defcls, depth, sdepth, False)
-            if rr:
-                p = p + ["Raise"]
+            self._in_handler = getattr(self, "_in_handler", 0) + 1
+            try:
+                p = self.block(list(h.body), defcls, depth, sdepth, False)
+            finally:
+                self._in_handler -= 1
             alts.append(seq(p))
         if not catch_all:
             alts.append("Raise")
@@ -555,6 +591,9 @@ class Ctx:
                 if isinstance(s.value, ast.Constant) and s.value.value is False:
                     return ["SetClosed"]
                 bail(s, "self._is_open assigned a non-literal", defcls.name)
+            if isinstance(s, (ast.Assign, ast.AnnAssign)) and isinstance(s.value, ast.Call) \
+                    and all(isinstance(t, ast.Name) for t in targets) and self.interpreted(s.value, defcls):
+                return self.call_stmt(s, s.value, defcls, depth, sdepth)     # `x = <interpreted call>`
             return self.io_or_skip(s, [s.value] + [t for t in targets if not isinstance(t, (ast.Name, ast.Attribute))],
                                    defcls)
         if isinstance(s, ast.If):
@@ -573,11 +612,13 @@ class Ctx:
                 return pre
             return pre + ["Choice (%s) (%s)" % (seq(a), seq(b))]
         if isinstance(s, ast.Try):
-            if s.orelse:
-                bail(s, "try/else", defcls.name)
             body = self.block(s.body, defcls, depth, sdepth, False)
             r = seq(body)
-            if s.handlers:
+            if s.handlers and s.orelse:
+                # else-body: only after the try body completed; its exceptions are not handled here
+                r = "TryElse (%s) (%s) (%s)" % (r, self.handlers(s, defcls, depth, sdepth),
+                                                seq(self.block(s.orelse, defcls, depth, sdepth, False)))
+            elif s.handlers:
                 r = "Try (%s) (%s) false" % (r, self.handlers(s, defcls, depth, sdepth))
             if s.finalbody:
                 r = "Finally (%s) (%s)" % (r, seq(self.block(s.finalbody, defcls, depth, sdepth, False)))
@@ -590,7 +631,9 @@ class Ctx:
             return ["Io %d" % s.lineno, "Finally (%s) (Io %d)" % (seq(body), s.lineno)]
         if isinstance(s, ast.Raise):
             if s.exc is None:
-                bail(s, "bare `raise` outside the end of an except clause", defcls.name)
+                if getattr(self, "_in_handler", 0) > 0:
+                    return ["Raise"]          # re-raise of the exception being handled
+                bail(s, "bare `raise` outside an except clause", defcls.name)
             if self.interpreted(s, defcls):
                 bail(s, "interpreted call inside a raise", defcls.name)
             return ["Raise"]
@@ -599,6 +642,8 @@ class Ctx:
                 bail(s, "`return` before the end of the function", defcls.name)
             if s.value is None:
                 return []
+            if isinstance(s.value, ast.Call) and self.interpreted(s.value, defcls):
+                return self.call_stmt(s, s.value, defcls, depth, sdepth)     # `return <interpreted call>`
             return self.io_or_skip(s, [s.value], defcls)
         if isinstance(s, ast.Assert):
             if self.interpreted(s, defcls):
@@ -617,6 +662,19 @@ class Ctx:
                         bail(s, "retry loop (exits by `return`) is not the last statement of its function", defcls.name)
                     return r
             bail(s, "loop containing an interpreted call", defcls.name)
+        if isinstance(s, (ast.Global, ast.Nonlocal)):
+            return []
+        if isinstance(s, (ast.Import, ast.ImportFrom)):
+            return ["Io %d" % s.lineno]
+        if isinstance(s, ast.Delete):
+            for t in s.targets:
+                if is_self_attr(t) and (t.attr == "_is_open" or t.attr in self.links):
+                    bail(s, "del of flag / link attribute", defcls.name)
+            return self.io_or_skip(s, list(s.targets), defcls) or ["Io %d" % s.lineno]
+        if isinstance(s, (ast.FunctionDef, ast.ClassDef)):
+            if self.interpreted(s, defcls):
+                bail(s, "nested definition containing an interpreted call", defcls.name)
+            return []
         bail(s, "unrecognised statement %s" % type(s).__name__, defcls.name)
 
 
@@ -640,7 +698,39 @@ def _body(fn):
     return b
 
 
-def base_facts(table):
+def transport_close_shape(repo, class_name):
+    """SYNTACTIC FALL-BACK, used only for a transport class the harness cannot instantiate: close() marks the
+    transport closed (super().close()) before anything that is not logging; one level of private-helper inlining
+    is accepted.  -> list of problems"""
+    table = Table(repo)
+    table.load("qmi/core/transport.py")
+    table.resolve_bases()
+    c = table.classes.get(("qmi.core.transport", class_name))
+    if c is None:
+        return ["%s not found in qmi/core/transport.py" % class_name]
+    bad = []
+    if "open" in c.methods:
+        bad.append("%s overrides QMI_Transport.open" % class_name)
+
+    def effective(fn, inline=True):
+        b = [x for x in _body(fn)
+             if not (isinstance(x, ast.Expr) and isinstance(x.value, ast.Call) and is_logging_call(x.value))]
+        if inline and b and isinstance(b[0], ast.Expr) and isinstance(b[0].value, ast.Call) \
+                and is_self_attr(b[0].value.func) and b[0].value.func.attr in c.methods:
+            return effective(c.methods[b[0].value.func.attr], False) + b[1:]
+        return b
+    if "close" in c.methods:
+        b = effective(c.methods["close"])
+        first = b[0] if b else None
+        ok = (isinstance(first, ast.Expr) and isinstance(first.value, ast.Call)
+              and isinstance(first.value.func, ast.Attribute) and first.value.func.attr == "close"
+              and is_super_call(first.value.func.value))
+        if not ok:
+            bad.append("%s.close does not start with super().close()" % class_name)
+    return bad
+
+
+def base_facts(table):     # (superseded by c19.base_behaviour; kept for reference / manual use)
     """Check the shapes Model.v assumes of QMI_Instrument and QMI_Transport (and its subclasses).  Returns a list of
     problems (strings); empty = all facts hold."""
     bad = []
@@ -755,7 +845,7 @@ def translate(repo):
                 table.load("qmi/instruments/%s/%s" % (pkg, fn))
     table.resolve_bases()
     base = table.classes.get(("qmi.core.instrument", "QMI_Instrument"))
-    facts = base_facts(table)
+    facts = []      # the base classes are checked BEHAVIOURALLY by the harness (c19.base_behaviour)
     out, skipped = [], []
     names_seen = {}
     for key in sorted(table.classes):
@@ -792,7 +882,7 @@ def translate(repo):
                     dc, fn = ctx.resolve(which)
                     if fn is None:
                         raise TranslationError("no %s() in the MRO" % which)
-                    entry[which] = seq(ctx.block(fn.body, dc, 0, 0, True))
+                    entry[which] = seq(ctx.method_body(dc, fn, 0, 0))
                     entry[which + "_def"] = "%s.%s (%s:%d)" % (dc.name, which, dc.relpath, fn.lineno)
                     entry[which + "_defcls"] = dc.name
                     entry[which + "_file"] = dc.relpath
